@@ -66,8 +66,12 @@ CHECKS = {
              "seeded random trees; minimal and redundant parentheses; compact and wide spacing) are parsed by the real Function.create "
              "and evaluated by the real Function.membership/Node.evaluate on symbolic variables (own variables, engine values, x; scalars "
              "and arrays); the result must equal the documented meaning evaluated on the generating tree (SMT, functions as symbols named "
-             "after the documented function) and the real Node.postfix() evaluated by a reference stack machine must agree.",
-        note=NOTE_R + "Formula texts come from a bounded seeded grammar; rejection of ill-formed formulas is not claimed (arbitrary text: C16).",
+             "after the documented function) and the real Node.postfix() evaluated by a reference stack machine must agree. Rejection of "
+             "ill-formed formulas: every sequence of up to 5 symbolic tokens (operators, parentheses, comma, a function of each arity, "
+             "variable, number, unknown word) runs through the real Function.load; whatever is loaded must have balanced parentheses and "
+             "operands/arities adding up to one value (SMT per accepting path).",
+        note=NOTE_R + "Formula texts come from a bounded seeded grammar; ill-formed formulas at token level and for the statement's listed classes "
+             "only (operators merely standing in the wrong place are not judged).",
         ref="DESIGN.md §2 C17"),
     "C20": dict(
         text="Bounded symbolic exploration: setting values are opaque symbols whose truth value and mutual equality are symbolic booleans "
